@@ -209,12 +209,21 @@ impl<S: BuildHasher + Clone + 'static> ExpirationMap<S> {
     }
 
     pub fn try_cleanup(&self, now: Time) -> Result<Option<HashMap<u64, u64, S>>, CacheError> {
+        // Every bucket up to the cleanup bucket is due: ticks further apart than one second (the
+        // default is two) or a late tick must not skip the buckets in between.
         let bucket_num = cleanup_bucket(now);
-        Ok(self
-            .buckets
-            .write()
-            .remove(&bucket_num)
-            .map(|bucket| bucket.map))
+        let mut m = self.buckets.write();
+        let due: Vec<i64> = m.keys().copied().filter(|b| *b <= bucket_num).collect();
+        let mut items: Option<HashMap<u64, u64, S>> = None;
+        for b in due {
+            if let Some(bucket) = m.remove(&b) {
+                match items.as_mut() {
+                    None => items = Some(bucket.map),
+                    Some(acc) => acc.extend(bucket.map),
+                }
+            }
+        }
+        Ok(items)
     }
 
     pub fn hasher(&self) -> S {
